@@ -12,7 +12,7 @@ import impl
 from gen import programs as G
 
 PROP_FILES = ["theories/Props/C18.v", "theories/Inst/C18_inst.v"]
-DEPS = ["theories/Proofs/C18_proofs.vo", "theories/Gen/Registry.vo", "theories/Gen/Blacklists.vo",
+DEPS = ["theories/Proofs/C18_proofs.vo", "theories/Manager/DocUrl.vo", "theories/Gen/Registry.vo", "theories/Gen/Blacklists.vo",
         "theories/Gen/Published.vo", "theories/Gen/Docs.vo", "theories/Cli/Thresholds.vo"]
 RANKS = ["UNDEFINED", "LOW", "MEDIUM", "HIGH"]
 
